@@ -343,8 +343,8 @@ def _z(v):
 
 class Sym:
     __slots__ = ("e",)
-    # numpy: let object loops call our operators element-wise
-    __array_priority__ = 1000
+    # (no __array_priority__/__array_ufunc__: ndarray OP Sym must stay with numpy so
+    # that its object loops call our operators element-wise)
 
     def __init__(self, e):
         if not isinstance(e, z3.ExprRef):
